@@ -282,9 +282,14 @@ def load(repo):
 
 
 # ------------------------------------------------------------------------------------------------- helpers
+_HSUF = __import__("re").compile(r"__h\d+\b")
+
+
 def src(n):
+    """source text of a node; the `__hN` suffix that helper inlining (pynorm) gives to colliding locals is dropped, so that
+    an inlined body reads like the code it was extracted from"""
     try:
-        return ast.unparse(n)
+        return _HSUF.sub("", ast.unparse(n))
     except Exception:
         return "<%s>" % type(n).__name__
 
